@@ -37,39 +37,41 @@ def cov_case(ty, rows, names=(0, 1), fd=0):
 
 def gen(tier, rng):
     quick = tier == "quick"
-    # ---- mean / variance: empty, every list over the alphabet up to length 5 (6 thorough)
+    # ---- mean / variance: empty, every list over the alphabet up to length 5 (7 thorough)
     for op in (1, 2):
         for ty in (0, 1):
             yield sx([14, op, ty, []])
-            for n in range(1, 6 if quick else 7):
+            for n in range(1, 6 if quick else 8):
+                if ty == 1 and n > (4 if quick else 6):
+                    continue
                 for vals in itertools.product(ALPHA, repeat=n):
                     yield sx([14, op, ty, [num(ty, v) for v in vals]])
-            for _ in range(600 if quick else 6000):
+            for _ in range(150 if quick else 6000):
                 n = rng.choice([1, 2, 3, 4, 5, 6, 7, 9, 12, 17])
                 yield sx([14, op, ty, [rnd(ty, rng, True) for _ in range(n)]])
-        # lengths around the characteristic-irrelevant boundary: counts by repeated +1
+        # longer lists: the count is built by repeated +1
         for n in (30, 64, 100):
             yield sx([14, op, 0, [rnd(0, rng) for _ in range(n)]])
             yield sx([14, op, 1, [rnd(1, rng) for _ in range(n)]])
 
-    # ---- covariance: every samples x features count up to 5 x 4 over {-1, 0, 2}, Rat.
-    # exhaustive while the number of cells is at most 8 (3^8 = 6561), sampled beyond; every
-    # case runs both matrix entry points and the tensor route; fd / names vary
+    # ---- covariance: EVERY samples x features count up to 5 x 4 over {-1, 0, 2}, Rat:
+    # exhaustive while the number of cells is at most 6 (quick) / 9 (thorough), sampled beyond;
+    # every case runs both matrix entry points and the tensor route; the feature dimension
+    # alternates between the first and the second name
     for r in range(1, 6):
         for c in range(1, 5):
             cells = r * c
-            if cells <= (8 if quick else 10):
+            if cells <= (6 if quick else 9):
                 it = itertools.product(ALPHA, repeat=cells)
             else:
-                it = (tuple(rng.choice(ALPHA) for _ in range(cells)) for _ in range(700 if quick else 8000))
+                it = (tuple(rng.choice(ALPHA) for _ in range(cells)) for _ in range(150 if quick else 3000))
             k = 0
             for vals in it:
                 rows = [[num(0, vals[i * c + j]) for j in range(c)] for i in range(r)]
                 k += 1
                 yield cov_case(0, rows, (0, 1), k % 2)
-    # the transposed orientation as well (features x samples up to 4 x 5 is covered above by the
-    # same loop since both entry points run on every case); names in other orders, foreign name
-    for _ in range(1500 if quick else 20000):
+    # random values and sizes beyond 5 x 4, names in other orders, foreign feature name, Fp
+    for _ in range(400 if quick else 20000):
         ty = rng.choice([0, 0, 1])
         r = rng.choice([1, 2, 3, 4, 5, 6, 7])
         c = rng.choice([1, 2, 3, 4, 5, 6])
@@ -81,7 +83,7 @@ def gen(tier, rng):
     # Fp over the tiny alphabet
     for r in range(1, 4):
         for c in range(1, 4):
-            if r * c <= 6:
+            if r * c <= (4 if quick else 6):
                 for vals in itertools.product(ALPHA, repeat=r * c):
                     rows = [[num(1, vals[i * c + j]) for j in range(c)] for i in range(r)]
                     yield cov_case(1, rows, (1, 0), sum(vals) % 2)
@@ -89,10 +91,10 @@ def gen(tier, rng):
     # ---- softmax: skeleton comparison over both UF-fields; empty; ties; every short list
     for ty in (0, 1):
         yield sx([14, 5, ty, []])
-        for n in range(1, 5 if quick else 6):
+        for n in range(1, 5 if quick else 7):
             for vals in itertools.product((-1, 0, 2, 3), repeat=n):
                 yield sx([14, 5, ty, [num(ty, v) for v in vals]])
-        for _ in range(1500 if quick else 15000):
+        for _ in range(400 if quick else 15000):
             n = rng.choice([1, 2, 3, 4, 5, 6, 8, 11])
             vals = [rnd(ty, rng, True) for _ in range(n)]
             if rng.random() < 0.3 and n > 1:      # repeated maximum / repeated values
@@ -105,7 +107,7 @@ def gen(tier, rng):
         for p in small:
             for r in small:
                 yield sx([14, 6, ty, p, r])
-        for _ in range(500 if quick else 5000):
+        for _ in range(150 if quick else 5000):
             yield sx([14, 6, ty, rnd(ty, rng, True), rnd(ty, rng, True)])
 
 
